@@ -489,13 +489,43 @@ impl Property for C18 {
         vec![
             "nontrivial", "single:rename-term", "single:add-parent", "single:remove-parent", "single:flip-obsolete", "single:set-replacement-existing", "single:set-replacement-dangling",
             "single:clear-replacement", "single:add-term", "single:remove-term", "single:add-record", "single:remove-record", "single:rename-record", "single:add-link", "single:remove-link",
-            "single:change-replacement-dangling-to-dangling", "name-longer-than-255-bytes",
+            "single:change-replacement-dangling-to-dangling", "name-longer-than-255-bytes", "bulk>65535-terms",
         ]
     }
     fn run_generated(&self, tier: Tier, seed: u64, n: u64, stats: &mut Stats) -> Option<(Value, Failure)> {
         run_typed(strategy(tier), seed, n, stats, check)
     }
     fn replay(&self, case: &Value, stats: &mut Stats) -> Result<CheckResult, String> {
+        if let Some(b) = case.get("bulk") {
+            // (terms, mult, records per kind, selector): two ontologies of more than 65 535 terms that differ by a
+            // handful of edits spread over early and late terms
+            let v: (u32, u32, u32, u16) = serde_json::from_value(b.clone()).map_err(|e| e.to_string())?;
+            stats.cases += 1;
+            let old = super::common::bulk_facts(v.0, v.1, v.2);
+            let mut new = old.clone();
+            let mut edits = Vec::new();
+            let sel = v.3;
+            for (i, kind) in [0usize, 2, 7, 8, 11, 13].iter().enumerate() {
+                let p = [sel.wrapping_mul(31).wrapping_add((i as u16).wrapping_mul(9973)), sel.wrapping_add((i as u16).wrapping_mul(20_011)), (i as u16) * 3 + 1];
+                if let Some(k) = apply_edit(&mut new, *kind, p, &format!("edited {i}")) {
+                    edits.push(k.to_string());
+                }
+            }
+            new.ann_calls = new.canonical_ann_calls();
+            let r = check(&Case { old, new, edits, path: PathSel::Bin(3) }, stats);
+            if r.is_ok() {
+                stats.label("bulk>65535-terms");
+            }
+            return Ok(r);
+        }
         replay_typed::<Case, _>(case, stats, check)
+    }
+    fn isolated_plans(&self, tier: Tier, seed: u64) -> Vec<Value> {
+        let sel = (seed % 60_000) as u16;
+        let mut out = vec![json!({"bulk": (65_900u32, 7919u32, 30u32, sel)})];
+        if tier == Tier::Thorough {
+            out.push(json!({"bulk": (70_000u32, 104_729u32, 300u32, sel.wrapping_add(7))}));
+        }
+        out
     }
 }
